@@ -77,7 +77,10 @@ func (f *Fn) compile() {
 			if list, _ := a.([]any); 0 < len(list) {
 				if name, _ := list[0].(string); 0 < len(name) {
 					if af := NewFn(name); af != nil {
-						af.Args = list[1:]
+						// Compile a copy, the list itself is left as given (it
+						// may be part of a plan that is already in use).
+						af.Args = make([]any, len(list)-1)
+						copy(af.Args, list[1:])
 						af.compile()
 						f.Args[i] = af
 					}
